@@ -141,7 +141,11 @@ class Walker:
         for p in t['params']:
             if 'pat' in p and p['pat']['k'] == 'Binding':
                 nm = p['pat']['name']
-                st = st.bind(p['pat']['var'], ('lit', self.consts[nm]) if nm in self.consts else ('param', nm))
+                if nm in self.consts:
+                    cv = self.consts[nm]
+                    st = st.bind(p['pat']['var'], cv if isinstance(cv, tuple) and cv and cv[0] in ('enum', 'token') else ('lit', cv))
+                else:
+                    st = st.bind(p['pat']['var'], ('param', nm))
         out = []
         for (s, kind, v) in self.run(t['body'], st):
             if kind == 'val': kind, v = self.as_return(v)
@@ -227,7 +231,9 @@ class Walker:
             for s in states:
                 if s_['k'] == 'Expr':
                     for (s2, k, v) in self.run(s_['expr'], s):
-                        if k == 'val': nxt.append(s2)
+                        if k == 'val':
+                            if v == ('next',): s2 = s2.with_ev(('anytok', frozenset()))      # `tokens.next();` - the token is consumed, its value dropped
+                            nxt.append(s2)
                         else: abrupt.append((s2, k, v))
                 else:
                     if s_['init'] is None:
@@ -386,6 +392,28 @@ class Walker:
                     earlier |= set(toks)
                     none_seen = none_seen or has_none
                 continue
+            if v[0] in ('enum', 'token', 'lit'):
+                # match on a value known on this path (a constant argument of a specialised parse function): the first arm that accepts it
+                taken = False
+                for arm in e['arms']:
+                    if arm['guard'] is not None: raise Undec('guard on a constant match', e['loc'])
+                    for p in flat_pats(arm['pat']):
+                        q = p
+                        while q['k'] in ('Deref', 'DerefPattern'): q = q['sub']
+                        hit = False; s2 = s
+                        if q['k'] == 'Wild': hit = True
+                        elif q['k'] == 'Binding' and not q.get('sub'): hit = True; s2 = s.bind(q['var'], v)
+                        elif q['k'] == 'Variant' and v[0] in ('enum', 'token'):
+                            adt = canon(q['adt'])
+                            hit = (adt == (v[1] if v[0] == 'enum' else TOK)) and q['variant'] == (v[2] if v[0] == 'enum' else v[1]) and not q.get('subs')
+                        elif q['k'] == 'Constant' and v[0] == 'lit' and isinstance(v[1], bool):
+                            cv = str(q.get('value'))
+                            hit = (('true' in cv or '0x01' in cv) and v[1] is True) or (('false' in cv or '0x00' in cv) and v[1] is False)
+                        if hit:
+                            out.extend(self.run(arm['body'], s2)); taken = True; break
+                    if taken: break
+                if not taken: raise Undec('no arm accepts the constant %r' % (v,), e['loc'])
+                continue
             raise Undec('match on %s in a parse function' % pp(scr)[:60], e['loc'])
         return out
 
@@ -410,7 +438,7 @@ class Walker:
                 res.append((s.with_ev(('la', frozenset([v[1]]))), 'val', ('lit', want_ok)))
                 res.append((s.with_ev(('nla', frozenset([v[1]]))), 'val', ('lit', not want_ok)))
             elif cn in self.K:
-                lits = tuple(v[1] for v in vs[1:] if v[0] == 'lit')
+                lits = tuple((v[1] if v[0] == 'lit' else v) for v in vs[1:] if v[0] == 'lit' or (v[0] == 'enum' and len(v) == 3) or v[0] == 'token')
                 if len(lits) != len(vs) - 1: raise Undec('call to %s with a non-constant extra argument' % cn, loc)
                 s2 = s.with_ev(('nt', cn, lits))
                 res.append((s2, 'val', ('res', ('ev', len(s2.ev) - 1))))
@@ -497,14 +525,22 @@ class Extractor:
 
     def seq_of(self, evs):
         items = []
+        pending = set()       # look-ahead tests since the last consumption
         for ev in evs:
-            if ev[0] == 'tok': items.append(T(ev[1]))
-            elif ev[0] in ('la', 'nla'): items.append(ev)
-            elif ev[0] == 'anytok': raise Undec('a success path consumes an arbitrary token')
+            if ev[0] == 'tok': items.append(T(ev[1])); pending = set()
+            elif ev[0] in ('la', 'nla'): items.append(ev); pending.add(ev)
+            elif ev[0] == 'anytok':
+                # a token consumed without being named: it is one of those the preceding look-ahead tests allow
+                a = allowed(frozenset(pending | {('nla', ev[1])}))
+                if not a or 'NONE' in a or len(a) > 12: raise Undec('a success path consumes an arbitrary token')
+                items.append(T(sorted(a)[0]) if len(a) == 1 else ('alt', [T(t) for t in sorted(a)]))
+                pending = set()
             elif ev[0] == 'nt':
+                pending = set()
                 if ev[1] in OPAQUE: items.append(SYM(OPAQUE[ev[1]]))
                 else: items.append(self.ge_of(ev[1], ev[2]))
             elif ev[0] == 'loop':
+                pending = set()
                 cont = ('alt', [self.seq_of(p) for p in ev[1]])
                 brk = ('alt', [self.seq_of(p) for p in ev[2]])
                 items.append(('seq', [STAR(cont), brk]))
@@ -748,7 +784,9 @@ def rule_A3(F, R, ex=None):
         if fname in (EXPECT, CHECK): continue
         t = lib.ithir[fname]
         extra = [p for p in t['params'] if not is_reader_ty(p['ty'])]
-        variants = [()] if not extra else [(True,), (False,)]
+        variants = [()] if not extra else call_site_consts(lib, K, fname, len(extra))
+        if variants is None:
+            R.violation('%s / A3 / UNDECIDABLE / non-constant extra argument' % fname, 'UNDECIDABLE', 'parse function %s is called with an extra argument that is not a constant' % fname.split('::')[-1]); continue
         for lits in variants:
             try:
                 w = Walker(lib, K, {p['pat']['name']: v for p, v in zip(extra, lits)})
@@ -801,6 +839,29 @@ def rule_A3(F, R, ex=None):
         ok = c in seen
         R.obligation(ok, 'A3 seen ' + c)
         if not ok: R.violation('rsbdd::parser / A3 / no path builds %s' % c, 'A3', 'no parse path constructs %s' % c)
+
+def call_site_consts(lib, K, fname, n_extra):
+    """the tuples of constant extra arguments (bool literals, unit enum variants) with which `fname` is called from the parse
+    functions; None if some call passes something else"""
+    out = []
+    for g in sorted(K):
+        t = lib.ithir.get(g)
+        if t is None: continue
+        for e in walk(t['body']):
+            if e['k'] == 'Call' and callee_name(e) == fname:
+                vals = []
+                for a in e['args']:
+                    x = a
+                    while x['k'] in ('Borrow', 'Deref', 'Use', 'NeverToAny', 'PointerCoercion'): x = x.get('arg') or x.get('source')
+                    if x['k'] == 'Literal' and isinstance(x.get('value'), bool): vals.append(x['value'])
+                    elif x['k'] == 'Adt' and not x['fields'] and canon(x['adt']) not in (SYN, TOK): vals.append(('enum', canon(x['adt']), x['variant']))
+                    elif x['k'] == 'Adt' and not x['fields'] and canon(x['adt']) == TOK: vals.append(('token', x['variant']))
+                    elif is_reader_ty(x.get('ty', {})): continue
+                    else: vals.append(None)
+                vals = vals[-n_extra:] if n_extra else []
+                if len(vals) != n_extra or any(v is None for v in vals): return None
+                if tuple(vals) not in out: out.append(tuple(vals))
+    return out or None
 
 def check_cons(R, fname, v, seq, fields, lits, seen):
     name = v[1]
